@@ -121,11 +121,13 @@ def _canon(obj, out, seen, depth=0):
         out.append('>')
 
 
-def library_state_hash(prefix='segno'):
-    """Canonical hash of everything reachable from the globals of the library's modules."""
+def library_state_hash(prefix='segno', only=None):
+    """Canonical hash of everything reachable from the globals of the library's modules (only=<module name>: that module)."""
     out = []
     seen = {}
     for name in sorted(sys.modules):
+        if only is not None and name != only:
+            continue
         if name == prefix or name.startswith(prefix + '.'):
             mod = sys.modules[name]
             if mod is None:
